@@ -2,6 +2,7 @@ package main
 
 import (
 	"fmt"
+	"hash/fnv"
 	"strings"
 
 	"verifharness/pkg/gen"
@@ -45,6 +46,9 @@ func selPool(r *h.Rand, o *gen.Oracle, adversarial bool) (sels, topics []string)
 				topics = append(topics, e)
 				if r.Bool() {
 					topics = append(topics, gen.Perturb(r, e))
+				}
+				if r.Chance(1, 3) { // same prefix, a remainder no variable can produce
+					topics = append(topics, e+h.Pick(r, []string{"?q=1", "#f", ":x", " y", "é", "/deeper", "%zz"}))
 				}
 			}
 		} else {
@@ -212,13 +216,60 @@ func shrinkSel(cs selCase, at int) selCase {
 	return selCase{Cap: cs.Cap, Shards: cs.Shards, Lookups: cur}
 }
 
+// hashCollisionCases: pairs of cache keys that collide under FNV-32a (the hash the sharded cache uses to
+// pick a shard) although they are different strings and have different answers — found by a birthday
+// search over numbered topics / selectors. A cache whose entries are identified by anything coarser than
+// the whole key string (a hash, a truncated key) answers the second lookup of such a pair from the first.
+func hashCollisionCases(rr *h.Rand) []selCase {
+	h32 := func(s string) uint32 {
+		f := fnv.New32a()
+		f.Write([]byte(s))
+
+		return f.Sum32()
+	}
+	var out []selCase
+	base := "https://example.com/" + gen.Literal(rr, false)
+	// match-result keys m_<sel>_<topic>: a matching topic and a non-matching one with the same hash
+	sel := base + "/users/{id}/notes"
+	seen := map[uint32]string{}
+	const n = 1 << 17
+	for i := 0; i < n; i++ {
+		t := fmt.Sprintf("%s/users/%d/notes", base, i)
+		seen[h32("m_"+sel+"_"+t)] = t
+	}
+	for i := 0; i < n && len(out) < 3; i++ {
+		t := fmt.Sprintf("%s/admin/%d/secrets", base, i)
+		if t1, ok := seen[h32("m_"+sel+"_"+t)]; ok {
+			out = append(out, selCase{Cap: 10000, Shards: h.Pick(rr, []int{1, 4, 256}), Lookups: []selLookup{{t1, sel}, {t, sel}, {t1, sel}}},
+				selCase{Cap: 10000, Shards: h.Pick(rr, []int{1, 4, 256}), Lookups: []selLookup{{t, sel}, {t1, sel}}})
+		}
+	}
+	// compiled-template keys t_<sel>: two selectors with the same hash
+	seenSel := map[uint32]int{}
+	mk := func(i int) string { return fmt.Sprintf("%s/rooms/%d/{message}", base, i) }
+	found := 0
+	for i := 0; i < n && found < 2; i++ {
+		k := h32("t_" + mk(i))
+		if j, ok := seenSel[k]; ok {
+			a, b := mk(j), mk(i)
+			ta := fmt.Sprintf("%s/rooms/%d/hello", base, j)
+			out = append(out, selCase{Cap: 10000, Shards: h.Pick(rr, []int{1, 4, 256}), Lookups: []selLookup{{ta, a}, {ta, b}, {ta, a}}},
+				selCase{Cap: 10000, Shards: h.Pick(rr, []int{1, 4, 256}), Lookups: []selLookup{{ta, b}, {ta, a}}})
+			found++
+		}
+		seenSel[k] = i
+	}
+
+	return out
+}
+
 func runSel(c *h.Ctx, r *h.Report) {
-	r.Rule = "lookup histories over a per-case pool (templates from a grammar over all RFC 6570 operators/modifiers with their expansions and near-misses, literals, malformed templates, '*'), against stores of capacity {0,1,2,10000} x shards {1,4,256}; adversarial stream adds, for every occurrence of the cache-key separator, the pair that moves text across it. Non-trivial = history that repeats a (topic, template-selector) pair and contains both a true and a false non-reflexive answer; distinct by content."
+	r.Rule = "lookup histories over a per-case pool (templates from a grammar over all RFC 6570 operators/modifiers with their expansions and near-misses, literals, malformed templates, '*'), against stores of capacity {0,1,2,10000} x shards {1,4,256}; adversarial stream adds, for every occurrence of the cache-key separator, the pair that moves text across it; a hash-collision stream looks up pairs of distinct keys (same selector with a matching and a non-matching topic; two selectors) that a birthday search found to collide under FNV-32a, the cache's shard hash. Non-trivial = history that repeats a (topic, template-selector) pair and contains both a true and a false non-reflexive answer; distinct by content."
 	o := gen.NewOracle()
 	caps := []int{0, 1, 2, 10000}
 	shards := []int{1, 4, 256}
-	nPlain := c.Scale(400, 20000)
-	nAdv := c.Scale(200, 5000)
+	nPlain := c.Scale(600, 20000)
+	nAdv := c.Scale(300, 5000)
 	if c.Replay != "" {
 		var rp struct {
 			Case selCase `json:"case"`
@@ -230,6 +281,11 @@ func runSel(c *h.Ctx, r *h.Report) {
 	}
 	for _, cs := range selCorpus() {
 		runSelCase(c, r, o, cs, "corpus")
+	}
+	for k := 0; k < c.Scale(2, 20); k++ {
+		for _, cs := range hashCollisionCases(c.Rand.Fork()) {
+			runSelCase(c, r, o, cs, "hash-collision")
+		}
 	}
 	for i := 0; i < nPlain+nAdv; i++ {
 		rr := c.Rand.Fork()
